@@ -1,4 +1,5 @@
 import Sourmash.Lemmas.CrashReopen
+import Sourmash.Lemmas.CrashExtend
 import Sourmash.Lemmas.CrashCsv
 /-! Property C10 — an interrupted or reopened on-disk index never returns wrong answers.
 Property theorems only (helper lemmas: `Sourmash/Lemmas/Crash*.lean`; model: `Sourmash/Model/Crash.lean`).
@@ -294,6 +295,67 @@ theorem rerun_after_reopen (rt : Manifest → Option Manifest) (hrt : ∀ m, rt 
         rw [hclean]
         exact hm }
   exact run_complete sp hi (agrees_create _ 0) hL
+
+/-! ### extension histories: `update` between reopen sequences, internal locations renumbered -/
+
+/-- **T-extend-history**: take the completed index of `c₁` (signatures held by the outside world `w₁`),
+run ANY sequence `ops₁` of `flush` / `close` / `open` / `internalize_storage` / move on it that leaves a
+read-write handle open, then `update` with a collection `c₂` that extends `c₁` position by position
+(`Extends`: the same sketches at the same positions) but names its blobs as it likes — in particular a
+location of `c₁` may name ANOTHER sketch in `c₂`, as happens when `Collection::from_sigs` renumbers
+(`w₂` is the storage of `c₂`; `sup = true`: the rows agree, `check_superset` does not compare locations) —
+then ANY sequence `ops₂`, e.g. internalize again, close, move, reopen.  Then the update is accepted and
+ends in the completed index of `c₂`, and afterwards — whatever STORAGE held under the reused locations —
+* HASHES / PROCESSED are the reference of `c₂`, `counter_for_query` answers from it;
+* opening succeeds with the manifest of `c₂`, and through that handle as through a handle still open,
+  `sig_for_dataset i` is dataset `i`'s own sketch (not a stale blob of `c₁` stored under the same
+  location) and `gather` is the gather of the reference. -/
+theorem extend_history (rt : Manifest → Option Manifest) (hrt : ∀ m, rt m = some m)
+    (w₁ w₂ : World) (c₁ c₂ : Coll) (sp : Spec) (st : Store)
+    (he : Extends c₁ c₂) (hw₁ : Serves w₁ c₁) (hw₂ : Serves w₂ c₂)
+    (hc : Completed w₁ c₁.manifest (cleanState c₁ sp st)) (p : Nat) (ops₁ ops₂ : List ROp) (q : List Nat) :
+    let s₁ := (reopenSeq rt w₁ { disk := cleanState c₁ sp st, handle := none, path := p } ops₁).1
+    ∀ h, s₁.handle = some h → h.readOnly = false →
+      (extendSess true s₁ c₂ .fs).2 = .ok ∧
+      (extendSess true s₁ c₂ .fs).1.disk = cleanState c₂ .fs s₁.disk.storage ∧
+      let s₂ := (reopenSeq rt w₂ (extendSess true s₁ c₂ .fs).1 ops₂).1
+      s₂.disk.hashes = graph c₂ ∧
+      s₂.disk.processed = (cleanState c₂ .fs []).processed ∧
+      counterFor s₂.disk.hashes q = counterFor (graph c₂) q ∧
+      (∀ ro, ∃ h', openIdx rt s₂.disk ro = some h' ∧ h'.manifest = c₂.manifest ∧
+          (∀ i, sigFor w₂ s₂.disk h' i = c₂[i]?.map DS.hashes) ∧
+          gather s₂.disk.hashes (sigFor w₂ s₂.disk h') q = gather (graph c₂) (fun i => c₂[i]?.map DS.hashes) q) ∧
+      (∀ h', s₂.handle = some h' → h'.manifest = c₂.manifest ∧
+          (∀ i, sigFor w₂ s₂.disk h' i = c₂[i]?.map DS.hashes) ∧
+          gather s₂.disk.hashes (sigFor w₂ s₂.disk h') q = gather (graph c₂) (fun i => c₂[i]?.map DS.hashes) q) := by
+  intro s₁ h hh hrw
+  have hinv₁ : SInv w₁ c₁.manifest (cleanState c₁ sp st) s₁ :=
+    (SInv.init hc p).seq rt hrt (present_of_serves hw₁) ops₁
+  have hext := extendSess_ok he hinv₁ h hh hrw .fs
+  rw [hext]
+  refine ⟨rfl, rfl, ?_⟩
+  intro s₂
+  have hinv₂ : SInv w₂ c₂.manifest (cleanState c₂ .fs s₁.disk.storage) s₂ :=
+    (SInv.after_extend w₂ c₂ s₁.disk.storage s₁.path).seq rt hrt (present_of_serves hw₂) ops₂
+  have ha := hinv₂.answers rt hrt hw₂ q
+  exact ⟨hinv₂.hashes, hinv₂.processed, by rw [hinv₂.hashes]; rfl, ha.1, ha.2⟩
+
+/-- non-vacuity of `extend_history`: two datasets under locations 0, 1, internalized; extended to three
+datasets under locations 1, 2, 0 (location 1 held dataset 1 and now names dataset 0, location 0 held
+dataset 0 and now names dataset 2); internalized again, closed, moved, reopened read-only: every dataset
+is served its own sketch -/
+def exExtC1 : Coll := [⟨0, [1, 2]⟩, ⟨1, [2]⟩]
+def exExtC2 : Coll := [⟨1, [1, 2]⟩, ⟨2, [2]⟩, ⟨0, [5]⟩]
+def exExtW1 : World := [(0, [1, 2]), (1, [2])]
+def exExtW2 : World := [(1, [1, 2]), (2, [2]), (0, [5])]
+def exExtA : Sess := (reopenSeq some exExtW1 { disk := cleanBuild exExtC1 .fs } [.openRw, .intern]).1
+def exExtB : Sess := (reopenSeq some exExtW2 (extendSess true exExtA exExtC2 .fs).1 [.intern, .close, .move, .openRo]).1
+example : Extends exExtC1 exExtC2 := ⟨by decide, by decide⟩
+example : exExtA.disk.storage.load 1 = some [2] ∧ (exExtA.handle.map (·.readOnly)) = some false := by decide
+example : (extendSess true exExtA exExtC2 .fs).2 = .ok := by decide
+example : exExtB.disk.storage.load 1 = some [1, 2] ∧ exExtB.disk.storage.load 0 = some [5] ∧
+    (exExtB.handle.map (fun h => (List.range 3).map (sigFor exExtW2 exExtB.disk h)))
+      = some [some [1, 2], some [2], some [5]] := by decide
 
 /-! ### closed forms: the CSV round trip discharged by C12
 
